@@ -197,9 +197,13 @@ def shard(ctx):
                 trial_bytes(ctx, data, 'file-bytes')
             # structured numeric soups: headers with extreme counts
             for _ in range(100):
-                nc = rng.choice([0, 1, 2, 3, 255, 256, 10 ** 6, 10 ** 12])
+                nc = rng.choice([0, 1, 2, 3, 255, 256, 65535, 65536, 10 ** 6, 2 ** 32 - 1, 2 ** 32, 10 ** 12, 2 ** 63, 2 ** 64 - 1, 2 ** 64, 10 ** 20, 10 ** 40])
                 ns = rng.choice([0, 1, 2, nc, nc + 1])
-                body = ' '.join('%d %d 0' % (rng.choice([0, 1, 7, 10 ** 20]), rng.randint(0, max(1, min(nc, 9)))) for _ in range(rng.randint(0, 4)))
+
+                def cid():
+                    "a ranked candidate number: small, or at the top of the declared range (any width of integer), or beyond it"
+                    return rng.choice([rng.randint(0, max(1, min(nc, 9))), nc, max(1, nc - 1), max(1, nc // 2), nc + 1, 2 ** 32, 2 ** 64 - 1])
+                body = ' '.join('%d %s 0' % (rng.choice([0, 1, 7, 10 ** 20]), ' '.join(str(cid()) for _ in range(rng.randint(1, 3)))) for _ in range(rng.randint(0, 4)))
                 names = ' '.join('"n%d"' % k for k in range(min(nc, rng.randint(0, 5))))
                 trial(ctx, '%d %d %s 0 %s "t"' % (nc, ns, body, names), 'extreme-header')
 
